@@ -15,7 +15,9 @@ mkdir -p $S/build
 rsync -a --exclude run/ --exclude 'unit/*' /verif/.build/ $S/build/
 [ -d /verif/.build/unit/$PID ] && mkdir -p $S/build/unit && cp -a /verif/.build/unit/$PID $S/build/unit/
 cd $HERE
-VERIF_REPO=$S/repo VERIF_BUILD=$S/build VERIF_OUT=$S/out VERIF_EVIDENCE=$S/evidence ./check $PID --tier $TIER 2>&1 | tail -${MT_TAIL:-15}
+MODE="--tier $TIER"
+[ -n "${MT_REPLAY:-}" ] && MODE="--replay $MT_REPLAY"
+VERIF_REPO=$S/repo VERIF_BUILD=$S/build VERIF_OUT=$S/out VERIF_EVIDENCE=$S/evidence ./check $PID $MODE 2>&1 | tail -${MT_TAIL:-15}
 rc=${PIPESTATUS[0]}
 if [ -n "${MT_KEEP:-}" ]; then echo "kept: $S"; else git -C /repo worktree remove --force $S/repo; rm -rf $S; fi
 echo "mutant_test: check exit code $rc (1 = caught)"
